@@ -273,7 +273,7 @@ def run_one(ctx, lc, cfg, ops, honest, kind, drain=True):
         fin = ["- " + cn.state("c"), "- " + cn.state("s")]
         if out[-2:] != fin and impl == model:
             ctx.disagree("conn-final-state", rep, out[-2:], fin)
-    return cn, orc, impl
+    return cn, orc, impl, all_ops
 
 
 def cfg_json(cfg):
@@ -427,9 +427,9 @@ def replay(ctx, rep):
     if inp.get("stage") in ("honest", "faulty-peer"):
         cfg = cfg_unjson(inp["cfg"])
         ops = [op_unjson(o) for o in inp["ops"]]
-        r = run_one(ctx, lc, cfg, ops, inp["honest"], inp["stage"], drain=False)
+        r = run_one(ctx, lc, cfg, ops, inp["honest"], inp["stage"], drain=True)
         if r is not None:
-            for line, op in zip(r[2], ops):
+            for line, op in zip(r[2], r[3]):
                 print("  %-40s -> %s" % (_conn.Conn.op_line(op), line))
         for v in ctx.violations:
             print("oracle:", v["key"], v["what"])
